@@ -786,6 +786,29 @@ fn version_sweep(env: &mut Env, fc: &FileCtx, foot: &Foot, index_level: bool, ba
                 );
             }
         }
+        // ... and so must the other read path
+        match guarded(|| managed.get_file_handle(p).map(|fh| fh.len())) {
+            Err(pi) => env.viol(format!("panic:version:get_file_handle:{}", pi.sig()), witness(json!(pi.message))),
+            Ok(Ok(len)) => {
+                if !supported {
+                    env.viol(
+                        format!("version:unsupported-version-opened-by-get_file_handle:{vname}"),
+                        witness(json!("get_file_handle returned Ok")),
+                    );
+                } else if len != body.len() {
+                    env.viol("version:get_file_handle-length-is-not-the-body-length".to_string(), witness(json!(len)));
+                }
+            }
+            Ok(Err(OpenReadError::IncompatibleIndex(inc))) => {
+                if supported {
+                    env.viol(format!("version:supported-version-refused-by-get_file_handle:{vname}"), witness(json!(format!("{inc:?}"))));
+                }
+            }
+            Ok(Err(e)) => env.viol(
+                format!("version:get_file_handle-{}-with-non-incompatibility-error:{vname}", if supported { "supported-refused" } else { "unsupported-refused" }),
+                witness(json!(e.to_string())),
+            ),
+        }
         env.rep.observe("version_classes", vname);
         // the checksum itself is intact: must not be reported as a mismatch
         match guarded(|| managed.validate_checksum(p)) {
@@ -1112,6 +1135,20 @@ fn case(case: u64, rng: &mut Rng, rep: &mut Report, thorough: bool) {
             Ok(Ok((_, Err(e)))) => env.viol(format!("intact:read_bytes-error:{kind}"), wit(json!(e.to_string()))),
             Ok(Err(e)) => env.viol(format!("intact:open_read-error:{kind}"), wit(json!(e.to_string()))),
             Err(pi) => env.viol(format!("intact:open_read-panicked:{}", pi.sig()), wit(json!(pi.message))),
+        }
+        // the other public read path, `get_file_handle`, hands out the same body
+        match guarded(|| index.directory().get_file_handle(p).map(|fh| (fh.len(), fh.read_bytes(0..fh.len()).map(|b| b.as_slice().to_vec())))) {
+            Ok(Ok((len, Ok(bytes)))) => {
+                if bytes.as_slice() != body || len != body.len() {
+                    env.viol(
+                        format!("intact:get_file_handle-is-not-the-body:{kind}"),
+                        wit(json!({"read_len": bytes.len(), "handle_len": len, "body_len": body.len()})),
+                    );
+                }
+            }
+            Ok(Ok((_, Err(e)))) => env.viol(format!("intact:get_file_handle-read-error:{kind}"), wit(json!(e.to_string()))),
+            Ok(Err(e)) => env.viol(format!("intact:get_file_handle-error:{kind}"), wit(json!(e.to_string()))),
+            Err(pi) => env.viol(format!("intact:get_file_handle-panicked:{}", pi.sig()), wit(json!(pi.message))),
         }
         if referenced {
             if !managed_list.contains(Path::new(path.as_str())) {
